@@ -121,7 +121,7 @@ def math_graders(debug):
 
 
 TOKENS = ['2', '3.5', 'x', 'f', '+', '-', '*', '/', '^', '||', '(', ')', '[', ']', ',']
-FOREIGN = ['²', '１', ';', '\t', "'", '_', '{', '}', '%', '.', 'e', '—', ' ', '!', '=', '"', '\\', '\n', 'ı', '∞']
+FOREIGN = ['²', '１', ';', '\t', "'", '_', '{', '}', '%', '.', 'e', '—', ' ', '!', '=', '"', '\\', '\n', 'ı', '∞', '<br/>', '<b>', '&lt;']
 
 
 class TokenStrings(Family):
